@@ -455,7 +455,14 @@ def perturb(ts, items, rng):
         pos = np.unique(np.concatenate([[0.0], ts.sites_position, [ts.sequence_length]]))
         mids = (pos[:-1] + pos[1:]) / 2
         mids = mids[(mids > pos[:-1]) & (mids < pos[1:])]
-        take = rng.choice(mids, size=min(len(mids), int(rng.integers(1, 12))), replace=False)
+        # how many: a random few, or (every other time, when the input has multiply-hit sites) exactly
+        # num_mutations - num_sites, which makes the two table sizes coincide (added after seed C08-a: a
+        # shortcut keyed on num_mutations == num_sites)
+        k_add = int(rng.integers(1, 12))
+        resonant = ts.num_mutations - ts.num_sites
+        if resonant > 0 and resonant <= len(mids) and rng.random() < 0.5:
+            k_add = resonant
+        take = rng.choice(mids, size=min(len(mids), k_add), replace=False)
         strict = t.sites.metadata_schema.schema is not None
         for x in take:
             t.sites.add_row(position=float(x), ancestral_state="N", metadata={} if strict else b"")
